@@ -282,6 +282,12 @@ func (c *zzfCons) BFTBeforeTransactionsExecute(blockchain.SealedBlockHeader, *di
 	return nil
 }
 
+// BFTAfterTransactionsExecute (added to generator.Consensus by fix 5dbe71a): the fake consensus keeps
+// no BFT parameters of its own.
+func (c *zzfCons) BFTAfterTransactionsExecute(*diffdb.Database, uint64, uint64, []*labi.Validator) error {
+	return nil
+}
+
 var (
 	zzfHashCur  = bytes.Repeat([]byte{0xa1}, 32) // validatorsHash of the BFT parameters at the forged height
 	zzfHashNext = bytes.Repeat([]byte{0xa2}, 32) // … at forged height + 1 (what the header must carry)
@@ -925,6 +931,9 @@ func zzH_C15_forge_clock_slot_boundary(t *zzT) {
 	}
 	hd := e.cons.handed[0].block.Header
 	gen, _ := e.cons.gens.AtTimestamp(e.cons.slot, hd.Timestamp)
+	// FINDING (unchanged tree, natively confirmed): generator.go:147 vs :481 — with the second read one
+	// second later and in the next slot the header carries a timestamp whose slot belongs to the other
+	// validator; consensus/verify.go:50-60 rejects it ("invalid block generator").
 	t.Assert(bytes.Equal(gen.Address(), hd.GeneratorAddress), "timing: the header timestamp stays in the slot whose generator forge() selected (clock read twice)")
 	t.Reach("handed")
 }
@@ -1154,6 +1163,10 @@ func zzH_C15_forge_self_accept_node(t *zzT) {
 	t.Assert(cons.staticErr == nil, "self-acceptance: the node's Block.Validate + verifyBlock accept the generated block")
 	t.Assert(!app.rootErr && !app.assetErr, "self-acceptance: the application sees the state root and assets it produced")
 	if valChange == 2 {
+		// FINDING (unchanged tree, natively confirmed): generator/abi_caller.go AfterTransactionsExecute drops
+		// PreCommitThreshold / CertificateThreshold / NextValidators, so sealBlock's
+		// GetBFTParameters(diffStore, height+1) still sees the old parameters; the node's processValidated
+		// applies them (consensus/abi_caller.go:102-109) and rejects the block: "invalid validatorsHash".
 		t.Assert(cons.procErr == nil && cons.isTip, "self-acceptance when the application changes the BFT parameters in this block: the node's process() accepts the generated block (validatorsHash)")
 	} else {
 		t.Assert(cons.procErr == nil && cons.isTip, "self-acceptance: the node's process() accepts the generated block and makes it the tip")
